@@ -10,12 +10,21 @@
 //! the implementation's observation is `accepted: true, complete: true` plus the result `run!` really returned.
 //! Real schedules differ between runs, so the op lines differ; the verdict does not.
 //!
+//! Markers (where they are written relative to the atomic action they stand for):
+//!   harness  `spawn p c req`      before `s.spawn*(..)`            `start c main`   first statement of the body (kind
+//!            `end t out val`      last statement of the body /     noted by `Task::run*` on the same thread just before)
+//!                                 while unwinding                  `obs t c`        after the cancellation was observed
+//!            `cancel s t`         before `s.cancel()`              `advance d`      before `clock.advance(d)`
+//!            `ctxnew c p dl`      after `p.with_timeout(..)`       `ret s r`        after `run` returned / while it unwinds
+//!   library  `make`               in `run`, after `State::make`    `rgd`            before `drop(guard)` in `run`
+//!            `seterr_enter/_stored` inside the `err` mutex         `ctx_cancel`     before `canceled.send()` in `Ctx::cancel`
+//!            `cgd`, `tgd`         first statement of the two `Drop` impls           `rel`  right before a task drops its guard
+//!
 //! Because the op line is only known after the run, this binary has its own driver loop (`drive`) instead of
 //! `vharness::drive`; it writes the same four files through `vharness::Out`.
 //!
-//! Replay / corpus: an op that already carries a `"log"` is first re-emitted verbatim (observation = the result
-//! recorded with it in `"observed"`), so a model disagreement reproduces deterministically; then the program is run
-//! again on the real code and emitted with the fresh log.
+//! Replay: an op of a replay file carries the log of the failing run for diagnosis only (it was recorded on another
+//! build); the program is run again on the current code, 3 times under each jitter pattern.
 //!
 //! Monitors on the implementation alone (S), evaluated on every log: see `monitors`.
 use std::{
@@ -159,6 +168,8 @@ struct Env {
     sched: u64,
     /// tasks spawned and not yet at the end of their body
     live: AtomicI64,
+    /// the same per scope (indexed by scope id)
+    live_scope: Vec<AtomicI64>,
     timeouts: AtomicU64,
     wait_ms: u64,
 }
@@ -201,33 +212,22 @@ fn spin(n: u32) {
 struct EndGuard<'a> {
     env: &'a Env,
     tid: u64,
-    done: bool,
-}
-
-impl EndGuard<'_> {
-    fn finish(&mut self, out: u8, val: u64) {
-        self.done = true;
-        verif::set_current_task(self.tid);
-        hev(json!(["end", self.tid, out, val]));
-        self.env.live.fetch_sub(1, Ordering::SeqCst);
-    }
-}
-
-impl Drop for EndGuard<'_> {
-    fn drop(&mut self) {
-        if !self.done {
-            self.finish(2, 0);
-        }
-    }
-}
-
-/// emits `ret s panic` if `run!` unwinds
-struct RetGuard {
     sid: u64,
     done: bool,
 }
 
-impl RetGuard {
+/// Declared right after the `Scope` object, so dropped right before it: holds the `Scope` (which the tasks borrow)
+/// alive until no task of the scope is running any more. On the unchanged code `run` has already joined them all, so
+/// this never waits; if `run` returns early (that is a violation, reported by the monitors and the model from the log)
+/// it keeps the stragglers from using a freed `Scope`.
+struct Quiesce<'a> {
+    env: &'a Env,
+    sid: u64,
+    done: bool,
+}
+
+impl Quiesce<'_> {
+    /// `run` returned `r`
     fn finish(&mut self, r: &Result<u64, u64>) {
         self.done = true;
         match r {
@@ -237,10 +237,34 @@ impl RetGuard {
     }
 }
 
-impl Drop for RetGuard {
+impl Drop for Quiesce<'_> {
     fn drop(&mut self) {
         if !self.done {
+            // `run` unwinds: it re-raises a task's panic
             hev(json!(["ret", self.sid, 2, 0]));
+        }
+        let t = std::time::Instant::now();
+        let limit = std::time::Duration::from_millis(2 * self.env.wait_ms + 2000);
+        while self.env.live_scope[self.sid as usize].load(Ordering::SeqCst) > 0 && t.elapsed() < limit {
+            std::thread::sleep(std::time::Duration::from_millis(1));
+        }
+    }
+}
+
+impl EndGuard<'_> {
+    fn finish(&mut self, out: u8, val: u64) {
+        self.done = true;
+        verif::set_current_task(self.tid);
+        hev(json!(["end", self.tid, out, val]));
+        self.env.live_scope[self.sid as usize].fetch_sub(1, Ordering::SeqCst);
+        self.env.live.fetch_sub(1, Ordering::SeqCst);
+    }
+}
+
+impl Drop for EndGuard<'_> {
+    fn drop(&mut self) {
+        if !self.done {
+            self.finish(2, 0);
         }
     }
 }
@@ -257,6 +281,7 @@ fn start_event(tid: u64) {
 
 fn spawn_child<'env>(env: &'env Env, cx: &'env ctx::Ctx, cid: u64, s: &'env S<'env>, sid: u64, me: u64, c: &'env TaskSpec) {
     env.live.fetch_add(1, Ordering::SeqCst);
+    env.live_scope[sid as usize].fetch_add(1, Ordering::SeqCst);
     hev(json!(["spawn", me, c.tid, c.main]));
     match (c.main, c.blocking) {
         (true, false) => drop(s.spawn(body_async(env, cx, cid, s, sid, c))),
@@ -281,29 +306,36 @@ fn caller_ctx(env: &Env, cx: &ctx::Ctx, cid: u64, spec: &ScopeSpec) -> (Option<c
 async fn scope_async(env: &Env, cx: &ctx::Ctx, cid: u64, spec: &ScopeSpec) -> Result<u64, u64> {
     let (dctx, _) = caller_ctx(env, cx, cid, spec);
     let pctx = dctx.as_ref().unwrap_or(cx);
-    let mut rg = RetGuard { sid: spec.sid, done: false };
     env.live.fetch_add(1, Ordering::SeqCst);
+    env.live_scope[spec.sid as usize].fetch_add(1, Ordering::SeqCst);
     verif::declare_scope(spec.sid);
-    let r = scope::run!(pctx, |ctx, s| body_async(env, ctx, spec.ctx, s, spec.sid, &spec.root)).await;
-    rg.finish(&r);
+    // `scope::run!(pctx, f)` is `scope::Scope::new(pctx).run(f)`; written out so that `Quiesce` can sit between the
+    // `Scope` object and its drop.
+    let mut sc = scope::Scope::new(pctx);
+    let mut q = Quiesce { env, sid: spec.sid, done: false };
+    let r = sc.run(|ctx, s| body_async(env, ctx, spec.ctx, s, spec.sid, &spec.root)).await;
+    q.finish(&r);
     r
 }
 
 fn scope_blocking(env: &Env, cx: &ctx::Ctx, cid: u64, spec: &ScopeSpec) -> Result<u64, u64> {
     let (dctx, _) = caller_ctx(env, cx, cid, spec);
     let pctx = dctx.as_ref().unwrap_or(cx);
-    let mut rg = RetGuard { sid: spec.sid, done: false };
     env.live.fetch_add(1, Ordering::SeqCst);
+    env.live_scope[spec.sid as usize].fetch_add(1, Ordering::SeqCst);
     verif::declare_scope(spec.sid);
-    let r = scope::run_blocking!(pctx, |ctx, s| body_blocking(env, ctx, spec.ctx, s, spec.sid, &spec.root));
-    rg.finish(&r);
+    // `scope::run_blocking!(pctx, f)` is `scope::Scope::new(pctx).run_blocking(f)` (see `scope_async`)
+    let mut sc = scope::Scope::new(pctx);
+    let mut q = Quiesce { env, sid: spec.sid, done: false };
+    let r = sc.run_blocking(|ctx, s| body_blocking(env, ctx, spec.ctx, s, spec.sid, &spec.root));
+    q.finish(&r);
     r
 }
 
 fn body_async<'env>(env: &'env Env, cx: &'env ctx::Ctx, cid: u64, s: &'env S<'env>, sid: u64, t: &'env TaskSpec) -> BoxFut<'env> {
     Box::pin(async move {
         start_event(t.tid);
-        let mut g = EndGuard { env, tid: t.tid, done: false };
+        let mut g = EndGuard { env, tid: t.tid, sid, done: false };
         for (i, st) in t.steps.iter().enumerate() {
             match env.jitter(t.tid, i) {
                 1 => tokio::task::yield_now().await,
@@ -367,7 +399,7 @@ fn body_async<'env>(env: &'env Env, cx: &'env ctx::Ctx, cid: u64, s: &'env S<'en
 
 fn body_blocking<'env>(env: &'env Env, cx: &'env ctx::Ctx, cid: u64, s: &'env S<'env>, sid: u64, t: &'env TaskSpec) -> Result<u64, u64> {
     start_event(t.tid);
-    let mut g = EndGuard { env, tid: t.tid, done: false };
+    let mut g = EndGuard { env, tid: t.tid, sid, done: false };
     for (i, st) in t.steps.iter().enumerate() {
         match env.jitter(t.tid, i) {
             1 => std::thread::yield_now(),
@@ -1060,6 +1092,7 @@ impl C17 {
             clock: clock.clone(),
             sched,
             live: AtomicI64::new(0),
+            live_scope: (0..=tb.scopes.keys().copied().max().unwrap_or(0)).map(|_| AtomicI64::new(0)).collect(),
             timeouts: AtomicU64::new(if self.total_timeouts >= 2 { 2 } else { 0 }),
             wait_ms: self.wait_ms,
         };
@@ -1222,29 +1255,21 @@ fn drive(p: &mut C17, opts: &Opts) -> anyhow::Result<()> {
     let mut out = Out::new(opts)?;
     let ops = load_ops(p, opts)?;
     for op in &ops {
-        if op.get("log").is_some() {
-            // a recorded run: replayed verbatim through the model
-            let obs = json!({"accepted": true, "complete": true, "result": op["observed"]["result"], "class": op["observed"]["class"]});
-            out.count("recorded_logs_replayed");
-            out.emit(op.clone(), obs);
-            if let Ok(spec) = serde_json::from_value::<ScopeSpec>(op["prog"].clone()) {
-                let tb = Tables::of(&spec);
-                let log = op["log"].as_array().cloned().unwrap_or_default();
-                let mut seen = HashSet::new();
-                for (site, what) in monitors(&tb, &log) {
-                    if seen.insert(site.clone()) {
-                        out.oracle_fail(&site, &what, op.clone());
-                    }
-                }
-            }
-        }
+        // An op taken from a replay file carries the log (and result) of the run that failed, for diagnosis. It was
+        // recorded on another build, so it does not decide anything about the current tree: the program is run again
+        // (several times, under every jitter pattern, since the schedule that failed cannot be forced).
+        let recorded = op.get("log").is_some();
         let mut fresh = op.clone();
         if let Some(o) = fresh.as_object_mut() {
             o.remove("log");
             o.remove("observed");
         }
-        let (full, obs) = p.exec_fresh(&fresh, &mut out);
-        out.emit(full, obs);
+        let reps: Vec<u64> = if recorded { (0..3 * N_SCHED).map(|i| i % N_SCHED).collect() } else { vec![fresh["sched"].as_u64().unwrap_or(0)] };
+        for sched in reps {
+            fresh["sched"] = json!(sched);
+            let (full, obs) = p.exec_fresh(&fresh, &mut out);
+            out.emit(full, obs);
+        }
         if p.abort || p.total_timeouts >= 40 {
             eprintln!("c17: stopping early (leaked tasks: {}, lost cancellations: {})", p.abort, p.total_timeouts);
             break;
